@@ -86,6 +86,14 @@ pub fn exactly_evaluable(f: &fol::Formula) -> bool {
         fol::Formula::BinaryFormula { lhs, rhs, .. } => exactly_evaluable(lhs) && exactly_evaluable(rhs),
         fol::Formula::QuantifiedFormula { quantification, formula } => {
             if !exactly_evaluable(formula) { return false; }
+            // forall distributes over conjunction, exists over disjunction (the evaluator does the same)
+            match (&quantification.quantifier, &**formula) {
+                (fol::Quantifier::Forall, fol::Formula::BinaryFormula { connective: fol::BinaryConnective::Conjunction, lhs, rhs })
+                | (fol::Quantifier::Exists, fol::Formula::BinaryFormula { connective: fol::BinaryConnective::Disjunction, lhs, rhs }) => {
+                    return [lhs, rhs].iter().all(|g| exactly_evaluable(&fol::Formula::QuantifiedFormula { quantification: quantification.clone(), formula: (*g).clone() }));
+                }
+                _ => {}
+            }
             let mut cs = Vec::new();
             match quantification.quantifier {
                 fol::Quantifier::Exists => conj(formula, &mut cs),
@@ -214,7 +222,7 @@ pub fn corpus(deep: bool) -> Vec<String> {
     let small: Vec<String> = { let mut v = Vec::new(); for a in ["p", "q"] { for o in ["->", "<-", "and", "<->"] { for b in ["p", "q", "r"] { v.push(format!("({a} {o} {b})")); } } } v };
     for a in &small { for o in ops { for b in &small { out.push(format!("{a} {o} {b}")); } } }
     let mut g = Gen { rng: Rng(0x5eed_c07) };
-    let n = if deep { 20000 } else { 2500 };
+    let n = if deep { 20000 } else { 1200 };
     for i in 0..n {
         let depth = 1 + (i % 4) as u32;
         let mut gens = vec!["X".to_string(), "Y".to_string()];
@@ -337,4 +345,64 @@ pub fn check(deep: bool, stats: &mut SimpStats, fails: &mut Vec<Failure>) {
         }
     }
     let _ = Sort::General;
+}
+
+// ---------------------------------------------------------------------------------------------------------------------
+// C05: gamma
+
+pub fn check_gamma(deep: bool, stats: &mut SimpStats, fails: &mut Vec<Failure>) {
+    let corpus = corpus(deep);
+    let mut inputs: Vec<(String, fol::Formula)> = Vec::new();
+    for t in &corpus {
+        if let Ok(f) = fol::Formula::from_str(t) { if exactly_evaluable(&f) { inputs.push((t.clone(), f)); } else { stats.skipped_inexact += 1; } }
+    }
+    stats.formulas = inputs.len();
+    let text: String = inputs.iter().map(|(t, _)| format!("{t}.\n")).collect();
+    let what = "anthem translate --with gamma".to_string();
+    let (rc, out, err) = match run_anthem(&["translate", "--with", "gamma"], Some(&text)) { Ok(x) => x, Err(e) => { fails.push(Failure { property: "harness", input: what, detail: e }); return; } };
+    stats.runs += 1;
+    if rc != 0 { fails.push(Failure { property: "C05", input: what, detail: format!("exit status {rc}: {}", err.chars().take(400).collect::<String>()) }); return; }
+    let outputs: Vec<Option<fol::Formula>> = match fol::Theory::from_str(&out) {
+        Ok(t) => t.formulas.into_iter().map(Some).collect(),
+        Err(_) => out.lines().filter(|l| !l.trim().is_empty()).map(|l| fol::Formula::from_str(l.trim().trim_end_matches('.')).ok()).collect(),
+    };
+    if outputs.len() != inputs.len() { fails.push(Failure { property: "C05", input: what, detail: format!("{} formulas in, {} formulas out", inputs.len(), outputs.len()) }); return; }
+    let dom = Domain::new(-3, 4, &["a", "b"]);
+    let n_interp = if deep { 60 } else { 16 };
+    let uni = universe();
+    let results: Vec<Option<Failure>> = crate::par_map(&(0..inputs.len()).collect::<Vec<_>>(), |i| {
+        let (src, fin) = &inputs[*i];
+        let fout = match &outputs[*i] { Some(f) => f, None => return Some(Failure { property: "skip", input: String::new(), detail: String::new() }) };
+        let (mut fv_in, mut fv_out) = (Vec::new(), Vec::new());
+        free_vars(fin, &mut Vec::new(), &mut fv_in);
+        free_vars(fout, &mut Vec::new(), &mut fv_out);
+        if fv_out.iter().any(|v| !fv_in.contains(v)) { return Some(Failure { property: "C05", input: format!("{what}: {src}"), detail: format!("gamma formula `{fout}` has a free variable the input does not have") }); }
+        // distinct predicates receive distinct copies: the copies of p/n are exactly hp/n and tp/n
+        let preds_in: std::collections::BTreeSet<(String, usize)> = fin.predicates().into_iter().map(|p| (p.symbol, p.arity)).collect();
+        for q in fout.predicates() {
+            let ok = (q.symbol.starts_with('h') || q.symbol.starts_with('t')) && preds_in.contains(&(q.symbol[1..].to_string(), q.arity));
+            if !ok { return Some(Failure { property: "C05", input: format!("{what}: {src}"), detail: format!("gamma formula `{fout}` mentions {}/{}, which is not the h- or t-copy of a predicate of the input", q.symbol, q.arity) }); }
+        }
+        if !exactly_evaluable(fout) { return Some(Failure { property: "skip", input: String::new(), detail: String::new() }); }
+        let (ein, eout) = (cheapest_first(fin), cheapest_first(fout));
+        let seed = src.bytes().fold(0xcbf29ce484222325u64, |h, b| (h ^ b as u64).wrapping_mul(0x100000001b3));
+        for m in sample_interpretations(&uni, n_interp, seed) {
+            let mut there = crate::dom::Atoms::new();
+            for (p, a) in &m.here { there.insert((format!("h{p}"), a.clone())); }
+            for (p, a) in &m.there { there.insert((format!("t{p}"), a.clone())); }
+            let cm = Ht { here: there.clone(), there, consts: Default::default() };
+            let (ev, cev) = (Eval { dom: &dom, ht: &m }, Eval { dom: &dom, ht: &cm });
+            for mut env in assignments(&fv_in) {
+                let a = ev.sat(&ein, &mut env, World::Here);
+                let b = cev.sat(&eout, &mut env, World::There);
+                if a != b {
+                    return Some(Failure { property: "C05", input: format!("{what}: {src}"), detail: format!("<{}> {} `{fin}` but the classical interpretation with h-/t-extents {} gamma formula `{fout}` under {:?}", m.show(), if a { "satisfies" } else { "does not satisfy" }, if b { "satisfies" } else { "does not satisfy" }, env.0) });
+                }
+            }
+        }
+        None
+    });
+    for r in results.into_iter().flatten() { if r.property == "skip" { stats.skipped_inexact += 1; } else { fails.push(r); } }
+    stats.compared += inputs.len();
+    stats.evaluations += inputs.len() * n_interp;
 }
